@@ -246,9 +246,11 @@ class Check:
         for rr in self.rules:
             for s in rr.samples[:2]:
                 samples.append({'rule': rr.rid, 'case': s})
-        for o in obligations[:6]:
-            samples.append({'rule': o.rule.rid, 'obligation': o.what, 'at': f'{o.file}:{o.line}', 'function': o.func,
-                            'status': o.status})
+        for rr in self.rules:       # one or two instances per rule, with the path / site that was judged
+            picked = [o for o in rr.obligations if o.witness and not o.what.startswith('instance floor')][:2] or rr.obligations[:1]
+            for o in picked:
+                samples.append({'rule': o.rule.rid, 'obligation': o.what, 'at': f'{o.file}:{o.line}', 'function': o.func, 'construct': o.stmt[:160],
+                                'judged_on': o.witness[:400], 'status': o.status, 'reached_along_paths': o.multiplicity})
         repo = self.repo
         ev = {
             'property_id': self.pid,
@@ -271,7 +273,7 @@ class Check:
                 'rule': 'one case = one rule instance anchored at a construct (file, qualified function, statement) of the '
                         'current tree; distinct = distinct (rule, file, function, statement) keys; a rule instance is '
                         'non-trivial when it was matched against at least one concrete site (floors enforce this)',
-                'samples': samples[:12] or [{'note': 'no obligations'}],
+                'samples': samples[:24] or [{'note': 'no obligations'}],
                 'exhaustive': True,
                 'rules': [{'id': rr.rid, 'text': rr.text, 'status': rr.status, 'obligations': len(rr.obligations),
                            'holding': sum(o.status == HOLDS for o in rr.obligations), 'sites': rr.sites,
